@@ -334,6 +334,20 @@ def reproducible(ctx, cfg, m, b, members):
             ctx.violation("C20:reproducible:%s" % nm, "two runs with seed %r give different %s (max diff %g)" % (
                 cfg["seed"], nm, float(np.nanmax(np.abs(a1 - a2))) if a1.shape == a2.shape else float("nan")),
                 dict(kind="repro", cfg=cfg, field=nm))
+    # ... and the SAME bootstrapper object fitted a second time (same model) draws the same resamples again
+    try:
+        quiet(b2.fit, m)
+        for nm in ("explained_variance", "total_variance"):
+            a1, a2 = np.asarray(b.data[nm].transpose("n", ...).values), np.asarray(b2.data[nm].transpose("n", ...).values)
+            sc = max(1e-300, float(np.nanmax(np.abs(a1))))
+            if a1.shape != a2.shape or not np.allclose(a1, a2, rtol=1e-7, atol=1e-9 * sc):
+                ok = False
+                ctx.violation("C20:reproducible:refit:%s" % nm, "a bootstrapper with seed %r fitted a second time on the same model gives other %s than its first fit (max diff %g): "
+                              "the resamples are not those of the seed" % (cfg["seed"], nm, float(np.nanmax(np.abs(a1 - a2))) if a1.shape == a2.shape else float("nan")),
+                              dict(kind="repro", cfg=cfg, field=nm, refit=True))
+                break
+    except Exception as e:
+        ctx.violation("C20:reproducible:refit:error:%s" % C.errkind(e), "fitting a bootstrapper a second time raised %r" % (e,), dict(kind="repro", cfg=cfg, refit=True))
     return ok
 
 
